@@ -81,7 +81,9 @@ def generate(seed: int, tier: str):
             #  filter becomes "maxima"; the property speaks of an image containing particles, not of background invariance)
             "offset": rng.choice([0.0, 0.0, 30.0, 300.0]) if picker == "zncc" else 0.0,
             "frac": rng.random() < 0.5, "cut": rng.random() < 0.5, "data_seed": rng.randrange(1 << 30), "noise": 0.0,
-            "sig_ratio": rng.choice([1.5, 1.6, 2.0]), "rot_set": rng.choice(["none", "z90", "z90"]), "min_score": 0.5,
+            "sig_ratio": rng.choice([1.5, 1.6, 2.0]), "rot_set": rng.choice(["none", "z90", "z90"]), "min_score": 0.7,
+            # exclusion radius of the template matcher: a couple of pixels (the overlap then has no slack) or most of the template
+            "min_dist_px": rng.choice([2.0, None]),
             "layouts": layouts, "knobs": W.gen_knobs(rng), "schedule": gen_schedule(rng),
             "uuid_seed": rng.randrange(1 << 30), "np_seed": rng.randrange(1 << 30)}
 
@@ -92,9 +94,15 @@ def hann(shape, c, R, amp=1.0):
     return amp * 0.5 * (1 + np.cos(np.pi * np.minimum(r, R) / R)) * (r < R)
 
 
-def make_template(tb, seed, tz=None):
-    """Asymmetric compact template: three blobs of different size on an L (in the plane of the last two axes)."""
+def make_template(tb, seed, tz=None, lump=False):
+    """Asymmetric compact template: three blobs of different size on an L (in the plane of the last two axes).
+    lump=True: one ellipsoidal blob filling the box (unimodal autocorrelation: no secondary correlation maxima, so a small
+    exclusion radius is within the preconditions)."""
     tz = tz or tb
+    if lump:
+        zz, yy, xx = np.indices((tz, tb, tb), dtype=np.float64)
+        r = np.sqrt(((zz - (tz - 1) / 2) / (tz / 2)) ** 2 + ((yy - (tb - 1) / 2) / (tb / 2)) ** 2 + ((xx - (tb - 1) / 2) / (tb / 2 * 0.7)) ** 2)
+        return (0.5 * (1 + np.cos(np.pi * np.minimum(r, 1.0))) * (r < 1.0)).astype(np.float32)
     c = (tb - 1) / 2
     cz = (tz - 1) / 2
     shp = (tz, tb, tb)
@@ -132,11 +140,11 @@ def build_image(sc):
     img = np.zeros(shape, dtype=np.float64)
     rots = []
     if sc["picker"] == "zncc":
-        tmpl = make_template(sc["tb"], sc["data_seed"], sc.get("tz"))
+        tmpl = make_template(sc["tb"], sc["data_seed"], sc.get("tz"), lump=bool(sc.get("min_dist_px")))
         ts = np.array(tmpl.shape)
         kept = []
         for p in pts:
-            k = int(rg.integers(0, 4)) if sc["rot_set"] == "z90" else 0
+            k = int(rg.integers(0, 4)) if (sc["rot_set"] == "z90" and not sc.get("min_dist_px")) else 0
             t = np.rot90(tmpl, k=k, axes=(1, 2))
             z0 = np.round(p - (ts - 1) / 2 + np.where(ts % 2 == 0, 0.5, 0.0) - np.where(ts % 2 == 0, 0.5, 0.0)).astype(int)
             if (z0 < 0).any() or (z0 + ts > np.array(shape)).any():
@@ -173,12 +181,12 @@ def make_picker(sc, tmpl):
         return pick.LoGPicker(sc["R"] / 2 * k * s), {}
     if sc["picker"] == "dog":
         return pick.DoGPicker(sc["R"] / 2 * k * s, sc["R"] / 2 * k * sc["sig_ratio"] * s), {}
-    if sc["rot_set"] == "z90":
+    if sc["rot_set"] == "z90" and not sc.get("min_dist_px"):
         # acryo's axis order is (z, y, x); a rotation about the first array axis
         rot = [Rotation.from_rotvec([np.deg2rad(a), 0, 0]) for a in (0, 90, 180, 270)]
     else:
         rot = None
-    return pick.ZNCCTemplateMatcher(tmpl, rotation=rot, order=1), {"min_distance": max(tmpl.shape) * 0.8 * s, "min_score": sc["min_score"]}
+    return pick.ZNCCTemplateMatcher(tmpl, rotation=rot, order=1), {"min_distance": (sc.get("min_dist_px") or max(tmpl.shape) * 0.8) * s, "min_score": sc["min_score"]}
 
 
 def check_picks(sc, pos, pts, layout, site):
